@@ -249,6 +249,37 @@ Definition step (X : xinfo) (prog : list rinstr) (s : vstate) : sres :=
                     else SStuck
         | None => SStuck end
     | BYTECODE_COPYGLOB => SNext (mkst next (r_gp fr :: stk) h o fr)
+    | BYTECODE_MK_INIT_ARRAY =>
+        (* vm_execute_mk_init_array, one dimension: the size on top, below it the elements, the first on top; the
+           array object and its reference are ONE cell here, HVec (the element cells' addresses) *)
+        match zn (r_w0 i), stk with
+        | Some 1%nat, an :: rest =>
+          match hint h an with
+          | Some zsz =>
+            match zn zsz with
+            | Some n => if Nat.leb n (length rest)
+                        then SNext (mkst next (length h :: skipn n rest) (h ++ [HVec (firstn n rest)]) o fr)
+                        else SStuck
+            | None => SStuck end
+          | None => SStuck end
+        | _, _ => SStuck end
+    | BYTECODE_ARRAYREF_DEREF =>
+        (* vm_execute_array_deref_univ, one dimension: the index on top, the array below; a negative or too large
+           index raises index_out_of_bounds.  (At the fault the real machine has popped the index, and for a too
+           large index the array reference too; here the reference stays: what is on the stack above the frame
+           base when an exception is dispatched is never read — CLEAR_STACK / RETHROW / UNHANDLED_EXCEPTION.)
+           A reference that is not an array (nil: nil_pointer in the real machine) is outside the model *)
+        match zn (r_w0 i), stk with
+        | Some 1%nat, ai :: aa :: rest =>
+          match hint h ai, nth_error h aa with
+          | Some z, Some (HVec l) =>
+            if (z <? 0) || (Z.of_nat (length l) <=? z)
+            then SNext (mkst (hsearch (x_tab X) (v_ip s) 0) (aa :: rest) h o (set_exc fr ExIndexOob))
+            else match nth_error l (Z.to_nat z) with
+                 | Some a => SNext (mkst next (a :: rest) h o fr)
+                 | None => SStuck end
+          | _, _ => SStuck end
+        | _, _ => SStuck end
     | BYTECODE_ID_GLOBAL =>
         match zn (r_w0 i), nth_error h (r_gp fr) with
         | Some k, Some (HVec l) =>
